@@ -46,10 +46,11 @@ structure Keywords where
   isByte  : Bool := false
   isWord  : Bool := false
   isDword : Bool := false
+  isQword : Bool := false
 deriving Repr, DecidableEq, Inhabited
 
 def Keywords.any (k : Keywords) : Bool :=
-  k.isShort || k.isLong || k.isFar || k.isByte || k.isWord || k.isDword
+  k.isShort || k.isLong || k.isFar || k.isByte || k.isWord || k.isDword || k.isQword
 
 /-- `struct prefix`. -/
 structure Hex where
